@@ -6,10 +6,11 @@ import Corankco.Driver.C20
 import Corankco.Driver.Algos
 import Corankco.Driver.Bio
 import Corankco.Driver.Partition
+import Corankco.Driver.Exact
 open Corankco
 
 def allOps : List (String × (J → Option J)) :=
-  Driver.c01Ops ++ Driver.c02Ops ++ Driver.c19Ops ++ Driver.c20Ops ++ Driver.algosOps ++ Driver.bioOps ++ Driver.partOps
+  Driver.c01Ops ++ Driver.c02Ops ++ Driver.c19Ops ++ Driver.c20Ops ++ Driver.algosOps ++ Driver.bioOps ++ Driver.partOps ++ Driver.exactOps
 
 def handle (line : String) : String :=
   let line := line.trimAscii.toString
